@@ -304,6 +304,57 @@ fn cmd_drain(args: &[String]) {
     }
 }
 
+fn seq_of(it: &mut dyn Iterator<Item = Showdown>, max: usize) -> Vec<String> {
+    let mut v = vec![];
+    for sd in it.take(max) {
+        let b: Vec<String> = sd.board().iter().map(|c| c.to_string()).collect();
+        let p: Vec<String> = sd
+            .players()
+            .iter()
+            .map(|p| format!("{}{}:{}:{}", p.hole_cards()[0], p.hole_cards()[1], p.hand().power_index(), p.is_winner()))
+            .collect();
+        v.push(format!("{}|{}|{}", b.join(""), p.join(","), sd.winner_len()));
+    }
+    v
+}
+
+fn cmd_interleave(args: &[String]) {
+    // interleave <max> <flopA> <scopeA|full> <flopB> <scopeB|full> <rangeA..> -- <rangeB..>
+    let max: usize = args[0].parse().unwrap();
+    let split = args.iter().position(|x| x == "--").unwrap();
+    let mk = |flop: &str, scope: &str, specs: &[String]| {
+        let board = flop_board(flop);
+        let ranges: Vec<HandRange> = specs.iter().map(|s| range_spec(s)).collect();
+        let mut ev = FlopExhaustiveEvaluator::new(&board, &ranges);
+        if scope != "full" {
+            let v: Vec<u8> = scope.split(',').map(|x| x.parse().unwrap()).collect();
+            ev.scope(v[0], v[1], v[2], v[3]);
+        }
+        ev.into_iter()
+    };
+    let ra = &args[5..split];
+    let rb = &args[split + 1..];
+    let solo_a = seq_of(&mut mk(&args[1], &args[2], ra), max);
+    let solo_b = seq_of(&mut mk(&args[3], &args[4], rb), max);
+    let mut a = mk(&args[1], &args[2], ra);
+    let mut b = mk(&args[3], &args[4], rb);
+    let (mut ia, mut ib) = (vec![], vec![]);
+    for _ in 0..max {
+        ia.extend(seq_of(&mut a, 1));
+        ib.extend(seq_of(&mut b, 1));
+    }
+    let mut diff = String::new();
+    for (name, solo, inter) in [("A", &solo_a, &ia), ("B", &solo_b, &ib)] {
+        for k in 0..solo.len().max(inter.len()) {
+            if solo.get(k) != inter.get(k) && diff.is_empty() {
+                diff = format!("evaluator {} showdown #{}: alone {:?}, interleaved {:?}", name, k, solo.get(k), inter.get(k));
+            }
+        }
+    }
+    println!("compared={}", solo_a.len() + solo_b.len());
+    println!("diff={}", diff);
+}
+
 fn cmd_tally(args: &[String]) {
     // README loop with integer tallies: wins[player][k] = number of showdowns this player wins k-way
     let board = flop_board(&args[0]);
@@ -484,6 +535,7 @@ fn main() {
         "enumerate" => cmd_enumerate(&args[1..]),
         "drain" => cmd_drain(&args[1..]),
         "tally" => cmd_tally(&args[1..]),
+        "interleave" => cmd_interleave(&args[1..]),
         "scopes" => {
             let n: u32 = args[1].parse().unwrap();
             match catch_unwind(|| scope_under_test::calculate_scopes(n)) {
